@@ -1266,7 +1266,7 @@ class RTCSctpTransport(AsyncIOEventEmitter):
             return
 
         # a SACK cannot acknowledge a TSN which was never assigned
-        if uint32_gt(chunk.cumulative_tsn, tsn_minus_one(self._local_tsn)):
+        if not uint32_gte(tsn_minus_one(self._local_tsn), chunk.cumulative_tsn):
             return
 
         received_time = time.time()
